@@ -23,7 +23,13 @@ import (
 	"time"
 )
 
-const Root = "/verif"
+// Root is the framework directory (a `vp run` snapshot sets VERIF_ROOT to its own copy).
+var Root = func() string {
+	if r := os.Getenv("VERIF_ROOT"); r != "" {
+		return r
+	}
+	return "/verif"
+}()
 
 // Fail is one violation of the property on one input.
 type Fail struct {
